@@ -36,7 +36,7 @@ CHECKS = {
     ),
     "C11": dict(
         category="proof",
-        text="Lean 4 theorems for every finitely supported law and every order, about a hand-written model of utils/statistics.py and of the two tail-bound formulas of cli/actions/goals_action.py: central_correct (raw_moments_to_centrals = E(X-EX)^k for all k >= 2, binomial theorem), central_order_one + central_counterexample (at k = 1 the code returns the mean: known finding F8), cumulant_correct / cumulant_recursion_correct (raw_moments_to_cumulants satisfies the moment-cumulant recursion at every order) with cumulant_is_log_mgf (that recursion is M' = K'M in Q[[t]], i.e. K = log M) and kappa_1..4 corollaries, markov / markov_min (every listed bound E(M^k)/a^k and the printed minimum dominate P(M >= a) for M >= 0, a > 0), second_moment_lower ((EM-a)^2/E(M-a)^2 <= P(M > a) when M - a >= 0, Cauchy-Schwarz). Tie to the code is differential and sampled: the two Python functions on random rational/symbolic raw-moment vectors of order <= 10 versus the compiled model and, on moments of random finite laws, versus the Lean specification; generated discrete programs through the real GoalsAction handlers (argparse Namespace, goal strings ck/kk/P(.>=a)<=?/P(.>a)>=?) compared at n = 0..4 with the exact law of the Lean reference semantics. The expansion clauses (Gram-Charlier integrates to 1 and reproduces k raw moments; Cornish-Fisher is the published one) are a finite table test only (rational cumulant vectors of length <= 6, <= 6 indeterminate cumulants), not a proof.",
+        text="Lean 4 theorems for every finitely supported law and every order, about a hand-written model of utils/statistics.py and of the two tail-bound formulas of cli/actions/goals_action.py: central_correct (raw_moments_to_centrals = E(X-EX)^k for all k >= 2, binomial theorem), central_order_one + central_counterexample (at k = 1 the code returns the mean: known finding F8), cumulant_correct / cumulant_recursion_correct (raw_moments_to_cumulants satisfies the moment-cumulant recursion at every order) with cumulant_is_log_mgf (that recursion is M' = K'M in Q[[t]], i.e. K = log M) and kappa_1..4 corollaries, markov / markov_min (every listed bound E(M^k)/a^k and the printed minimum dominate P(M >= a) for M >= 0, a > 0), second_moment_lower ((EM-a)^2/E(M-a)^2 <= P(M > a) when M - a >= 0, Cauchy-Schwarz). Tie to the code is differential and sampled: the two Python functions on random rational/symbolic raw-moment vectors of order <= 10 versus the compiled model and, on moments of random finite laws, versus the Lean specification; generated discrete programs through the real GoalsAction handlers (argparse Namespace, goal strings ck/kk/P(.>=a)<=?/P(.>a)>=?) compared at n = 0..4 with the exact law of the Lean reference semantics. Expansions: probHermite_eq_heSpec (prob_hermite_poly as coded is He_n, every n), gaussInt_heSpec_succ and gc_integrates_to_one (the Gram-Charlier polynomial factor as modelled has Gaussian integral 1 for every cumulant vector with k2 != 0) are proved about the model; 'reproduces the first k raw moments' and 'Cornish-Fisher is the published one' are a finite table test only (rational cumulant vectors of length <= 6, <= 6 indeterminate cumulants), not a proof.",
         design_ref="§4 C11, notes/C11.md",
         note="Trusted: Lean kernel + propext/Classical.choice/Quot.sound; Lean compiler for polar-model; harness generator/printer; sympy exact evaluation of Polar's closed forms at integers and parsing of the printed --at_n lines; for the expansions sympy polynomial arithmetic, the Gaussian raw-moment recursion and the published Cornish-Fisher table typed into harness/tasks/c11.py. Modelled not verified: the pipeline that produces the raw moments (C01), sympy expand/simplify. Known findings F8 (c1 = mean) and F8b (0/0 lower bound simplified to 1).",
         technique="Lean 4 proof (binomial theorem, moment-cumulant recursion / power-series logarithmic derivative, Markov, Cauchy-Schwarz second-moment bound) + differential correspondence of the real functions and goal handlers against the Lean model and specification; finite table test for the expansions",
@@ -95,6 +95,23 @@ CHECKS.update({
         design_ref="§4 C17",
         note="Trusted: Lean kernel/compiler (reference semantics), sympy exact evaluation of closed forms. 'One side refuses' is recorded, not judged.",
         technique="differential correspondence of the option matrix against a Lean reference semantics",
+    ),
+})
+
+CHECKS.update({
+    "C09": dict(
+        category="proof",
+        text="For generated guarded loops the real get_moment_given_termination is compared at every n <= 6 with the exact conditional expectation E(M | T <= n) = E(M 1[not G])(n) / P(not G)(n) computed by the Lean reference semantics; the value reported for --after_loop is compared with the limit that the Lean rule Polar.Limit.ratioLimit derives from the term shapes of Polar's numerator and denominator closed forms (tied to the exact sequences at n <= 6). Lean theorems: CFin.tendsto_expSeq_zero / tendsto_termSum_zero (terms with |base| < 1 vanish). Partial: the correctness theorem of ratioLimit and c09_conditional are not yet proved; raw moments only so far.",
+        design_ref="§4 C09",
+        note="Trusted: Lean kernel/compiler, term-shape extraction; the for-all-n validity of numerator/denominator closed forms is C01/C04's subject. Known finding F15 (sequence shifted by one) is attributed by the exact shifted identity.",
+        technique="Lean reference semantics as conditional-expectation oracle + Lean limit rule (differential correspondence)",
+    ),
+    "C19": dict(
+        category="proof",
+        text="Every generated AST is printed in 8 spellings (trivia, redundant parentheses, decimals, explicit last probability, temporaries for simultaneous assignment, nested else-if, all combined) plus arithmetic-precedence stress programs; the real parser's result for each spelling is executed by the Lean reference semantics and must have the law of the AST it was printed from, and the closed forms of the full pipeline must equal the exact expectations for each spelling; texts made ill-formed by 13 kinds of single edits and choices with invalid probability vectors must be rejected at the parse stage. Partial: the lark/symengine front end is tied differentially only; no model parser, so 'outside the grammar' is by construction of the edits.",
+        design_ref="§4 C19",
+        note="Trusted: Lean kernel/compiler (reference semantics), the harness pretty-printer.",
+        technique="differential correspondence of parser output against a Lean reference semantics over meaning-preserving respellings",
     ),
 })
 
